@@ -97,6 +97,15 @@ def countFreeBlocks (v : Nat) : Prog Nat := do
   if lastRel ≥ 2 ∧ !bmInTable vm lastRel then fault (.oob "adfCountFreeBlocks.bitmapTable")
   return ((List.range (lastRel + 1 - 2)).filter fun i => bmIsFree vm.bitmapTable (i + 2)).length
 
+/-- `adfHasFreeBlocks(vol, n)`: at least `n` free blocks? -/
+def hasFreeBlocks (v n : Nat) : Prog Bool := do
+  if n = 0 then return true
+  let vc ← getVolCfg v
+  let vm ← getVolMem v
+  let lastRel := vc.lastBlock - vc.firstBlock
+  if lastRel ≥ 2 ∧ !bmInTable vm lastRel then fault (.oob "adfHasFreeBlocks.bitmapTable")
+  return decide (((List.range (lastRel + 1 - 2)).filter fun i => bmIsFree vm.bitmapTable (i + 2)).length ≥ n)
+
 /-- `adfBitmapAllocate` + clearing of the change flags; pages are zero-filled (after the fix that
     replaces malloc by calloc for the pages) -/
 def bitmapAllocate (v size : Nat) : Prog Unit :=
